@@ -6,6 +6,8 @@ REPO="/repo"; OUT="/verif/mutants"
 FW="crates/maybenot/src/framework.rs"; ST="crates/maybenot/src/state.rs"; MA="crates/maybenot/src/machine.rs"; AC="crates/maybenot/src/action.rs"; DI="crates/maybenot/src/dist.rs"
 L="crates/maybenot-simulator/src/lib.rs"; N="crates/maybenot-simulator/src/network.rs"; Q="crates/maybenot-simulator/src/queue_peek.rs"; FF="crates/maybenot-ffi/src/lib.rs"; FFI="crates/maybenot-ffi/src/ffi.rs"
 M = [
+ ("unfix-div_duration_rounding", "crates/maybenot/src/time.rs", "        to_f64(self.as_nanos(), true) / to_f64(rhs.as_nanos(), false)", "        let _ = to_f64;\n        self.as_secs_f64() / rhs.as_secs_f64()", ["C03"], []),
+ ("unfix-div_duration_directed_rounding", "crates/maybenot/src/time.rs", "        to_f64(self.as_nanos(), true) / to_f64(rhs.as_nanos(), false)", "        let _ = to_f64;\n        self.as_nanos() as f64 / rhs.as_nanos() as f64", ["C03"], []),
  ("unfix-direct_return_of_due_action", L, """        if a.integration_delay == Duration::default() {
             // the action was strictly the earliest item and takes effect at
             // its own time: its event is the next event. Queueing it and
@@ -163,7 +165,7 @@ for name,f,a,b,det,sil in M:
     open(os.path.join(OUT,name+".patch"),"w").write(d)
     idx.append(dict(name=name,patch="mutants/"+name+".patch",detected_by=det,silent=sil))
 # reverse patches of the fix commits and the FFI flag swap
-for n,det in [("unfix-zero_total_padding",["C02","C07","C05"]),("unfix-global_counterzero_guard",["C08","C10","C05"]),("unfix-double_signal_all",["C09","C05"]),("unfix-leftover_signal",["C09","C05"]),("unfix-nan_validation",["C12"]),("unfix-single_read",["C11"]),("unfix-pps_division",["C19"]),("unfix-zero_duration_timer",["C18"]),("unfix-stale_pending_action",["C08","C05"]),("unfix-div_duration_rounding",["C03"]),("unfix-zero_duration_block_start",["C16"]),("unfix-pick_next_recursion",["C19"]),("unfix-trace_capacity_from_bound",["C19"]),("ffi-swap-flags",["C20"]),("fw-global-padding-count-thread-local",["C05"])]:
+for n,det in [("unfix-zero_total_padding",["C02","C07","C05"]),("unfix-global_counterzero_guard",["C08","C10","C05"]),("unfix-double_signal_all",["C09","C05"]),("unfix-leftover_signal",["C09","C05"]),("unfix-nan_validation",["C12"]),("unfix-single_read",["C11"]),("unfix-pps_division",["C19"]),("unfix-zero_duration_timer",["C18"]),("unfix-stale_pending_action",["C08","C05"]),("unfix-zero_duration_block_start",["C16"]),("unfix-pick_next_recursion",["C19"]),("unfix-trace_capacity_from_bound",["C19"]),("ffi-swap-flags",["C20"]),("fw-global-padding-count-thread-local",["C05"])]:
     idx.append(dict(name=n,patch="mutants/"+n+".patch",detected_by=det,silent=[]))
 json.dump(idx,open(existing,"w"),indent=1)
 print(len(idx),"mutants indexed")
